@@ -1,4 +1,33 @@
-(* C19 — placeholder (extended below). *)
-From Astro Require Import Base TzModel.
-Theorem C19_placeholder : from_tzif [] = TzErr. Proof. exact eq_refl. Qed.
-Print Assumptions C19_placeholder.
+(* C19 — malformed or hostile timezone data is rejected, never a crash.
+   TzModel transcribes the reader with every partial operation explicit (TzPanic marks expect/unwrap/indexing);
+   the theorems say no execution reaches one. *)
+From Astro Require Import Base Text DateModel TimeModel ApiModel InstantSpec TzModel TzProofs.
+
+(* for EVERY byte string the parser returns a timezone or an error *)
+Theorem C19_parse_total : forall bs, from_tzif bs <> TzPanic.
+Proof. exact from_tzif_no_panic. Qed.
+(* what an accepted file guarantees: type indices inside the table, a type or a rule to fall back on, rule fields in range *)
+Theorem C19_parse_wf : forall bs tz, Forall (fun b => 0 <= b) bs -> from_tzif bs = TzOk tz -> tz_wf tz.
+Proof. exact from_tzif_wf. Qed.
+(* ... and on such a structure every lookup inside the DateTime range returns an offset *)
+Theorem C19_lookup_total : forall tz t, tz_wf tz -> ts_in_range t -> to_local_time_type tz t <> TzPanic.
+Proof. exact lookup_no_panic. Qed.
+(* Offset::Local with any file content (or none) and any in-range clock reading cannot abort *)
+Theorem C19_local_total : forall file now_ts,
+  (forall bs, file = Some bs -> Forall (fun b => 0 <= b) bs) -> ts_in_range now_ts -> resolve_local file now_ts <> TzPanic.
+Proof. exact resolve_local_no_panic. Qed.
+Theorem C19_rule_dates_total : forall rdy time t, rule_day_ok rdy -> time_ok time -> ts_in_range t ->
+  rule_to_local_timestamp rdy time t <> TzPanic.
+Proof. exact rule_ts_no_panic. Qed.
+
+Example C19_nonvacuous : ts_in_range (-185604722784000) /\ ts_in_range 185480451590399 /\
+  rule_day_ok (MonthWeekDay 12 5 6) /\ rule_day_ok (JulianLeap 365) /\ from_tzif [84; 90; 105; 102] = TzErr.
+Proof.
+  unfold ts_in_range, EPOCH_SECS, DAYS_TO_1970, SECS_PER_DAY, I32_MIN, I32_MAX. cbn. repeat split; lia.
+Qed.
+
+Print Assumptions C19_parse_total.
+Print Assumptions C19_parse_wf.
+Print Assumptions C19_lookup_total.
+Print Assumptions C19_local_total.
+Print Assumptions C19_rule_dates_total.
